@@ -155,9 +155,26 @@ func genKeyBytes(t *rapid.T) []byte {
 func genC19Round(t *rapid.T) c19RoundCase {
 	n := rapid.IntRange(1, 6).Draw(t, "n")
 	var c c19RoundCase
+	var prev []byte
 	for i := 0; i < n; i++ {
+		key := genKeyBytes(t)
+		// keys that are near relatives of the previous record's key: the same bytes but for the last one, one byte
+		// longer or shorter, and lengths around powers of two (whatever keys are grouped or interned by)
+		switch rapid.IntRange(0, 5).Draw(t, "related") {
+		case 0:
+			if len(prev) > 0 {
+				key = append([]byte(nil), prev...)
+				key[len(key)-1] ^= byte(rapid.IntRange(1, 255).Draw(t, "flip"))
+			}
+		case 1:
+			key = append(append([]byte(nil), prev...), rapid.Byte().Draw(t, "extra"))
+		case 2:
+			l := rapid.SampledFrom([]int{15, 16, 17, 31, 32, 33, 63, 64, 65, 255, 256, 257}).Draw(t, "keyLen")
+			key = rapid.SliceOfN(rapid.SampledFrom([]byte{'a', 'b', '0', 0, 0xff}), l, l).Draw(t, "lenKey")
+		}
+		prev = key
 		c.Recs = append(c.Recs, c19Rec{
-			KeyHex:  hex.EncodeToString(genKeyBytes(t)),
+			KeyHex:  hex.EncodeToString(key),
 			Tx:      genUUID(t, "tx"),
 			Content: genUUID(t, "content"),
 			Seq:     rapid.OneOf(rapid.SampledFrom(seqBoundary), rapid.Uint64()).Draw(t, "seq"),
